@@ -357,6 +357,15 @@ class InverseMatcher(WrappingMatcher):
         return self.__class__(newchild, self.limit, missing=self.missing,
                               weight=self._weight, id=self._id)
 
+    def replace(self, minquality=0):
+        # The child's postings are the documents this matcher leaves out, so
+        # the child must never be pruned by quality
+        r = self.child.replace()
+        if r is not self.child:
+            return self._replacement(r)
+        else:
+            return self
+
     def is_active(self):
         return self._id < self.limit
 
